@@ -1,6 +1,6 @@
 """C15  Clipping, masking and opacity only remove paint, and only where specified.
 
-translate (gen_pixel: blend modes / call order of clip.rs, mask.rs, render_group) -> Coq closure of Props/C15.v ->
+translate (gen_pixel -> Gen/ClipTables.v: blend modes / call order of clip.rs, mask.rs, render_group) -> Coq closure of Props/C15.v ->
 harness -> correspondence
   K1 exhaustive tiny-skia tables through the public API: apply_mask scaling (65 536), luminance / alpha mask
      coefficient (byte pairs + random rgb pixels), Xor merge alpha (clip_group)
@@ -20,7 +20,7 @@ from vlib import qstr
 from props import c16 as P
 
 NS = P.NS
-IMPORTS = ['Model.Base', 'Model.F32', 'Gen.PixelTables', 'Model.Pixel', 'Model.PixelChk', 'Model.ClipMask']
+IMPORTS = ['Model.Base', 'Model.F32', 'Gen.ClipTables', 'Model.Blend8', 'Model.ClipMask', 'Model.ClipChk']
 US, RS = '\x1f', '\x1e'
 num = P.num
 dy = P.dy
@@ -434,7 +434,7 @@ def run(ctx):
     if binp is None:
         ctx.violation("harness does not build against the current tree (correspondence cannot run)", dict(build_log=blog[-2000:]), found_input=False)
         return
-    ok, log, failed = ctx.coq_build(['Model/PixelChk.v', 'Model/ClipMask.v'])
+    ok, log, failed = ctx.coq_build(['Model/ClipChk.v', 'Model/ClipMask.v', 'Model/Corr.v'])
     model_ok = ok
     if not ok:
         ctx.log("model files do not compile: %s\n%s" % (failed, log[-1500:]))
@@ -477,10 +477,10 @@ def run(ctx):
                 small.append("(verdict (diff_indices (xor_alpha_table %d) %s))" % (d, P.zl(tabs[nme]['ta'])))
                 labels.append(nme)
         if 'alpha' in tabs:
-            small.append("(verdict (diff_indices (flat_map (fun a => map (fun c => a) bytes) bytes) %s))" % P.zl(tabs['alpha']['t']))
+            small.append("(verdict (diff_indices alpha_table %s))" % P.zl(tabs['alpha']['t']))
             labels.append('alpha')
         if 'lumrgb' in tabs:
-            small.append("(verdict (diff_indices (map (fun p => lum_mask_u8 (pr p) (pg p) (pb p) (pa p)) (to_pxs %s)) %s))"
+            small.append("(verdict (diff_indices (lum_of_rgba %s) %s))"
                          % (P.zl(tabs['lumrgb']['src']), P.zl(tabs['lumrgb']['t'])))
             labels.append('lumrgb')
         evals.append(('k1_small', "Local Open Scope Z_scope.\nEval vm_compute in [%s].\n" % ";\n".join(small), IMPORTS))
@@ -488,7 +488,7 @@ def run(ctx):
             rows = list(range(256)) if not quick else sorted(set([0, 1, 2, 127, 128, 254, 255] + [rng.below(256) for _ in range(25)]))
             impl = [v for a in rows for v in tabs['lum']['t'][a * 256:(a + 1) * 256]]
             evals.append(('k1_lum', "Local Open Scope Z_scope.\nDefinition rows : list Z := %s.\nDefinition impl : list Z := %s.\n"
-                          "Eval vm_compute in (first5 (diff_indices (flat_map (fun a => map (fun c => lum_mask_u8 (Z.min c a) (Z.min c a) (Z.min c a) a) bytes) rows) impl)).\n"
+                          "Eval vm_compute in (first5 (diff_indices (lum_rows rows) impl)).\n"
                           % (P.zl(rows), P.zl(impl)), IMPORTS))
 
     # ============================================================== K2 clip-algebra
